@@ -24,10 +24,12 @@ def pm(v):
     return d
 
 
-def judge(vd, tf, ctx):
+def judge(vd, tf, ctx, prop="C20", rules=None):
     res = validate_traces("LowpanTrace", [tf], parallel=1)
     vd.add_validation(res)
-    report_viols(vd, "C20", res, ctx, pm, lambda v: "%s scenario=%s" % (v["rule"], v["p"]), per_class=1)
+    res = dict(res)
+    res["viol"] = [v for v in res["viol"] if v["rule"] in (rules or RULES)]  # W6 (neighbour-discovery option lists) is C10's
+    report_viols(vd, prop, res, ctx, pm, lambda v: "%s scenario=%s" % (v["rule"], v["p"]), per_class=1)
     return res
 
 
@@ -78,6 +80,9 @@ def replay(obj, vd):
     exe = build_harness()
     tf = os.path.join(OUT, "traces", "lowpan.replay.ndjson")
     run_harness(exe, ["lowpan-replay", "--sched", sf, "--out", tf])
-    judge(vd, tf, obj.get("ctx", {}))
+    if obj.get("property") == "C10":
+        judge(vd, tf, obj.get("ctx", {}), "C10", {"W6", "PANIC"})
+    else:
+        judge(vd, tf, obj.get("ctx", {}))
     vd.add_model("replay only", FakeTlc())
     vd.cov["samples"].append(list(read_ndjson(tf))[:4])
